@@ -7,7 +7,7 @@ ASSUMPTIONS = [
     'virtual clock (slimta.queue.time patched), Queue.wake replaced by an event with virtual timeouts and gevent set()/clear() semantics',
 ]
 
-CFGS = [dict(max_msgs=2, flush=True, race_announce=True), dict(max_msgs=2, flush=False, wait_generator=True, foreign=True), dict(max_msgs=3, flush=True, relay_pool=1), dict(max_msgs=3, flush=False, relay_pool=2, foreign=True),
+CFGS = [dict(max_msgs=2, flush=True, inf_backoff=True), dict(max_msgs=3, flush=False, inf_backoff=True), dict(max_msgs=2, flush=True, race_announce=True), dict(max_msgs=2, flush=False, wait_generator=True, foreign=True), dict(max_msgs=3, flush=True, relay_pool=1), dict(max_msgs=3, flush=False, relay_pool=2, foreign=True),
         dict(max_msgs=2, flush=True, backend='disk'), dict(max_msgs=2, flush=False, backend='cloud'),
         dict(max_msgs=2, flush=True), dict(max_msgs=3, flush=False), dict(max_msgs=2, flush=True, foreign=True),
         dict(max_msgs=1, flush=True)]
